@@ -577,6 +577,11 @@ class Run:
         raise OutOfDialect("`is` on non-reference values", n)
 
     def contains(self, container: Any, item: Any, n: ast.AST) -> Any:
+        h0 = getattr(self.spec, "contains", None)
+        if h0 is not None:
+            r0 = h0(self, container, item, n)
+            if r0 is not NotImplemented:
+                return r0
         if isinstance(container, tuple):
             r: Any = False
             for c in container:
